@@ -32,7 +32,9 @@ def strip_comments(text, keep_attrs=False):
             i = n if j < 0 else j
         elif text.startswith('/*', i):
             j = text.find('*/', i + 2)
-            i = n if j < 0 else j + 2
+            j = n if j < 0 else j + 2
+            out.append('\n' * text.count('\n', i, j))   # keep the line structure: source locations are reported
+            i = j
         elif c == "'" and i + 2 < n and (text[i + 2] == "'" or (text[i + 1] == '\\' and text.find("'", i + 2) - i <= 4)):
             j = text.find("'", i + 2 if text[i + 1] == '\\' else i + 1)
             out.append(text[i:j + 1])
@@ -43,7 +45,7 @@ def strip_comments(text, keep_attrs=False):
     s = ''.join(out)
     if keep_attrs:
         return s
-    s = re.sub(r'^\s*#!?\[[^\]\n]*\]\s*$', '', s, flags=re.M)      # attribute lines
+    s = re.sub(r'^[ \t]*#!?\[[^\]\n]*\][ \t]*$', '', s, flags=re.M)      # attribute lines
     s = re.sub(r'#\[(?:inline|cold|allow|doc|cfg_attr)[^\]\n]*\]', '', s)  # inline attributes
     return s
 
